@@ -5,11 +5,17 @@
 //!        "config": {"max_generations": n, "parallelism": [pools, threads] | null,
 //!                   "quota_after_polls": k | null, "seed": s, "outer_threads": t (default 1),
 //!                   "trace": n (default 0: record the first n bookkeeping states, see "trace" below),
-//!                   "poll_sites": bool (default false; C07: label every quota poll with the code site that made it)}}
+//!                   "poll_sites": bool (default false; C07: label every quota poll with the code site that made it),
+//!                   "construct": n (default 0: also return n PURE-CONSTRUCTION documents, see "constructed" below)}}
 //! res:  {"solution": <pragmatic solution JSON value>, "polls": quota polls seen, "generations": telemetry generations,
 //!        "evolution": number of telemetry evolution entries, "core_cost": Solution.cost (integer or "nonint:.."),
 //!        "core": {"routes": [{"vehicle","shift","jobs": [job id per job activity, tour order]}], "unassigned": [job ids]}}
-//!        "trace": [{"routes": [[job ids of tour.jobs()]], "required": [...], "unassigned": [...], "ignored": [...]}]
+//!        "constructed": [{"method": "cheapest"|"regret"|"farthest"|"nearest"|"skip_best"|"gaps"|"blinks", "solution": <document>}]
+//!                 = the real insertion heuristics run ONCE on the empty solution under the real goal (own environment: repeatable
+//!                   random, no quota; no ruin, no removal, no search), each result written by the real writer
+//!        "trace": [{"routes": [[job ids of tour.jobs() - a hash set, NOT the visiting order]],
+//!                   "seq": [{"vehicle","shift","acts": [[job id or "", location] in visiting order]}],
+//!                   "required": [...], "unassigned": [...], "ignored": [...]}]
 //!                 = SolutionContext after each insertion applied by InsertionHeuristic::process on the solving thread}
 //!        "insertions": number of insertions applied by InsertionHeuristic::process on the solving thread (all, not only
 //!                      the first `trace` ones), "poll_sites": ["insertion"|"iterative"|"decompose"|"swap_star"|"other", ...]
@@ -132,6 +138,10 @@ fn solve(case: &Value) -> Value {
         Ok(c) => c,
         Err(e) => return json!({"error": format!("config: {}", e)}),
     };
+    // pure CONSTRUCTION documents (config.construct = number of methods, default 0): the real insertion heuristics run once on
+    // the empty solution under the real goal (no ruin, no removal, no search), each result written by the real writer
+    let constructed = construct_documents(&core_problem, cfg["construct"].as_u64().unwrap_or(0) as usize);
+
     // bookkeeping trace: the four homes of a job as the real InsertionContext holds them after every insertion applied by
     // InsertionHeuristic::process ON THIS THREAD (hook in insertions.rs, thread-local observer); at most `trace` states
     let trace_limit = cfg["trace"].as_u64().unwrap_or(0) as usize;
@@ -150,8 +160,25 @@ fn solve(case: &Value) -> Value {
             let sol = &ctx.solution;
             let routes: Vec<Vec<String>> =
                 sol.routes.iter().map(|rc| rc.route().tour.jobs().map(|j| jid(j)).collect()).collect();
+            // the same routes as ORDERED activity sequences: [job id ("" for start / end), location] per activity, and the
+            // vehicle shift that drives each route
+            let seq: Vec<Value> = sol
+                .routes
+                .iter()
+                .map(|rc| {
+                    let dimens = &rc.route().actor.vehicle.dimens;
+                    let acts: Vec<Value> = rc
+                        .route()
+                        .tour
+                        .all_activities()
+                        .map(|a| json!([a.retrieve_job().map(|j| jid(&j)).unwrap_or_default(), a.place.location]))
+                        .collect();
+                    json!({"vehicle": dimens.get_vehicle_id().cloned(), "shift": dimens.get_shift_index().copied(), "acts": acts})
+                })
+                .collect();
             sink.push(json!({
                 "routes": routes,
+                "seq": seq,
                 "required": sol.required.iter().map(|j| jid(j)).collect::<Vec<_>>(),
                 "unassigned": sol.unassigned.keys().map(|j| jid(j)).collect::<Vec<_>>(),
                 "ignored": sol.ignored.iter().map(|j| jid(j)).collect::<Vec<_>>(),
@@ -206,7 +233,60 @@ fn solve(case: &Value) -> Value {
         "core_cost": num_out(solution.cost),
         "insertions": *insertions.borrow(),
         "poll_sites": quota.sites.as_ref().map(|s| s.lock().unwrap().clone()),
+        "constructed": constructed,
     })
+}
+
+/// runs up to `n` insertion-only construction heuristics on the empty solution and writes each result as a pragmatic document
+fn construct_documents(core_problem: &Arc<Problem>, n: usize) -> Vec<Value> {
+    use vrp_core::construction::heuristics::InsertionContext as ICtx;
+    use vrp_core::solver::search::{
+        Recreate, RecreateWithBlinks, RecreateWithCheapest, RecreateWithFarthest, RecreateWithGaps,
+        RecreateWithNearestNeighbor, RecreateWithRegret, RecreateWithSkipBest,
+    };
+    use vrp_core::solver::{create_elitism_population, RefinementContext};
+    if n == 0 {
+        return vec![];
+    }
+    let random: Arc<dyn Random> = Arc::new(DefaultRandom::new_repeatable());
+    let env = Arc::new(Environment::new(random.clone(), None, Parallelism::default(), Arc::new(|_: &str| {}), false));
+    let rctx = RefinementContext::new(
+        core_problem.clone(),
+        Box::new(create_elitism_population(core_problem.goal.clone(), env.clone())),
+        TelemetryMode::None,
+        env.clone(),
+    );
+    let methods: Vec<(&str, Box<dyn Recreate>)> = vec![
+        ("cheapest", Box::new(RecreateWithCheapest::new(random.clone()))),
+        ("regret", Box::new(RecreateWithRegret::new(2, 3, random.clone()))),
+        ("farthest", Box::new(RecreateWithFarthest::new(random.clone()))),
+        ("nearest", Box::new(RecreateWithNearestNeighbor::new(random.clone()))),
+        ("skip_best", Box::new(RecreateWithSkipBest::new(1, 2, random.clone()))),
+        ("gaps", Box::new(RecreateWithGaps::new(2, 20, random.clone()))),
+        ("blinks", Box::new(RecreateWithBlinks::new_with_defaults(random.clone()))),
+    ];
+    methods
+        .into_iter()
+        .take(n)
+        .map(|(name, method)| {
+            let ctx = method.run(&rctx, ICtx::new(core_problem.clone(), env.clone()));
+            let solution: Solution = ctx.into();
+            let mut buf = BufWriter::new(Vec::new());
+            if let Err(e) = write_pragmatic(core_problem, &solution, PragmaticOutputType::OnlyPragmatic, &mut buf) {
+                return json!({"method": name, "error": format!("write: {}", e)});
+            }
+            let bytes = buf.into_inner().unwrap_or_default();
+            match serde_json::from_slice::<Value>(&bytes) {
+                Ok(mut doc) => {
+                    if let Some(obj) = doc.as_object_mut() {
+                        obj.remove("extras");
+                    }
+                    json!({"method": name, "solution": doc})
+                }
+                Err(e) => json!({"method": name, "error": format!("not JSON: {}", e)}),
+            }
+        })
+        .collect()
 }
 
 fn run_case(case: &Value) -> Value {
